@@ -20,7 +20,7 @@ type c14 struct{ base }
 
 func init() {
 	core.Register(c14{base{id: "C14", level: "exploration", quickB: 16, thoroughB: 32,
-		rule:        "tables of 1-12 columns over {bool,int2,int4,int8,float4,float8,text,varchar,bytea,uuid,oid,date,timestamp,timestamptz,int4[],text[]}, 0-50 rows, NULL density 0-100%, encoded by the harness's own binary COPY encoder (19-byte header, rows, optional trailer); the stream is cut into CopyData messages: one message, every single cut position (exhaustive for streams <= 400 bytes), 1-byte messages, random multi-cuts, cuts inside header / field count / field length / value, empty CopyData messages interleaved; rows returned by the library's row reader must equal the rows sent (value per type, NULL as nil) and end with io.EOF, identically for all splits; streams of 3L+ bytes (fields of 5-30 KB) are cut into messages of L, L-1, L-r bytes that arrive while 1-60 bytes of a row are still buffered. Every truncation point of small streams (<= 200 bytes) followed by CopyDone: clean end exactly on row boundaries, error elsewhere. Corruptions (a well-framed value of an impossible size for its fixed-width type, field count +-1, 0, field length beyond the stream, length -2, stream ending mid-row, trailer mid-stream): a non-EOF error (or early EOF for the trailer), rows before it a prefix of the rows sent, no crash (child process). Non-trivial = split inside a row, trailer present, NULLs, or a corruption; distinct = (column types, rows, cut-set class, corruption).",
+		rule:        "tables of 1-12 columns over {bool,int2,int4,int8,float4,float8,text,varchar,bytea,uuid,oid,date,timestamp,timestamptz,int4[],text[]}, 0-50 rows, NULL density 0-100%, encoded by the harness's own binary COPY encoder (19-byte header, rows, optional trailer); the stream is cut into CopyData messages: one message, every single cut position (exhaustive for streams <= 400 bytes), 1-byte messages, random multi-cuts, cuts inside header / field count / field length / value, empty CopyData messages interleaved; rows returned by the library's row reader must equal the rows sent (value per type, NULL as nil) and end with io.EOF, identically for all splits; streams of 3L+ bytes (fields of 5-30 KB) are cut into messages of L, L-1, L-r bytes that arrive while 1-60 bytes of a row are still buffered. Every truncation point of small streams (<= 200 bytes) followed by CopyDone: clean end exactly on row boundaries, error elsewhere. Corruptions (a well-framed array value whose own header lies, a well-framed value of an impossible size for its fixed-width type, field count +-1, 0, field length beyond the stream, length -2, stream ending mid-row, trailer mid-stream): a non-EOF error (or early EOF for the trailer), rows before it a prefix of the rows sent, no crash (child process). Non-trivial = split inside a row, trailer present, NULLs, or a corruption; distinct = (column types, rows, cut-set class, corruption).",
 		need:        []string{"near_limit_messages", "streams_run", "rows_compared", "split_inside_row", "with_trailer", "single_cut_positions", "corruptions_run", "null_fields", "truncation_points"},
 		assumptions: append([]string{"header flags and extension length are zero (standard header); a field longer than the message limit L is not generated"}, commonAssumptions...)}})
 }
@@ -548,6 +548,62 @@ func (ch c14) corrupt(c *core.Ctx, env *hs.Env, t c14table, stream []byte, rowEn
 		}
 		cases = append(cases, corr{fmt.Sprintf("value of %d bytes in a column of a %d-byte type", n, w), bad, "error"})
 		c.Count("undecodable_values", 1)
+	}
+	// a well-framed array value whose own header lies (negative dimension length, element length
+	// beyond the value, absurd dimension count): the type codecs were written for trusted input
+	var acand []int
+	for j, v := range t.Rows[ri] {
+		if v != nil && (t.OIDs[j] == pg.OIDInt4Array || t.OIDs[j] == pg.OIDTextArray) {
+			acand = append(acand, j)
+		}
+	}
+	if len(acand) > 0 {
+		j := core.Pick(rng, acand)
+		elem := uint32(pg.OIDInt4)
+		if t.OIDs[j] == pg.OIDTextArray {
+			elem = pg.OIDText
+		}
+		be := func(vs ...uint32) []byte {
+			var b []byte
+			for _, v := range vs {
+				b = binary.BigEndian.AppendUint32(b, v)
+			}
+			return b
+		}
+		hostile := map[string][]byte{
+			"negative dimension length":       be(1, 0, elem, 0xfffffff0, 1),
+			"element length beyond the value": append(be(1, 0, elem, 2, 1, 0x0200002c), 1),
+			"three million dimensions":        be(3000000, 0, elem, 1, 1),
+			"dimension of three million":      be(1, 0, elem, 3000000, 1), // (what gets allocated for it is C04's business)
+		}
+		names := make([]string, 0, len(hostile))
+		for n := range hostile {
+			names = append(names, n)
+		}
+		sort.Strings(names)
+		name := core.Pick(rng, names)
+		bad := append([]byte{}, c14header...)
+		for r, row := range t.Rows {
+			bad = binary.BigEndian.AppendUint16(bad, nc)
+			for i, v := range row {
+				switch {
+				case r == ri && i == j:
+					bad = binary.BigEndian.AppendUint32(bad, uint32(len(hostile[name])))
+					bad = append(bad, hostile[name]...)
+				case v == nil:
+					bad = append(bad, 0xff, 0xff, 0xff, 0xff)
+				default:
+					b := pg.Encode(t.OIDs[i], 1, v)
+					bad = binary.BigEndian.AppendUint32(bad, uint32(len(b)))
+					bad = append(bad, b...)
+				}
+			}
+		}
+		if t.Trailer {
+			bad = append(bad, 0xff, 0xff)
+		}
+		cases = append(cases, corr{"array value with a lying header (" + name + ")", bad, "error"})
+		c.Count("hostile_array_values", 1)
 	}
 	if nc == 1 {
 		cases = append(cases, corr{"field count 0", mut(func(s []byte) []byte { binary.BigEndian.PutUint16(s[rowStart:], 0); return s }), "error"})
